@@ -92,7 +92,7 @@ func (m *c12Model) stream(n int) string {
 	return sb.String()
 }
 
-var c12Kinds = []string{"ans0", "ans1", "ans2", "ans3", "det1", "throw0", "throw1", "throw2", "typeerr1", "inf", "infdet", "cut1", "cutalt"}
+var c12Kinds = []string{"ans0", "ans1", "ans2", "ans3", "det1", "throw0", "throw1", "throw2", "typeerr1", "inf", "infdet", "cut1", "cutalt", "goeager3"}
 
 // symbols: Solutions A works with atoms, B with integers, so that bytes on the shared user_output can be
 // attributed to the query that wrote them.
@@ -141,6 +141,19 @@ func c12Query(kind string, slot int) (string, *c12Model) {
 		}
 		m.Steps = append(m.Steps, c12Step{Kind: 'x'})
 		return fmt.Sprintf("member(X, [%s]), write(X).", strings.Join(elems[:n], ", ")), m
+	case kind == "goeager3":
+		// three answers enumerated by a non-deterministic Go built-in (sub_atom/5) whose continuation up to the end
+		// of the query consists of Go built-ins only (they call their continuation directly, without a trampoline
+		// bounce): Close must stop the enumeration there as well
+		for _, e := range elems[:3] {
+			m.Steps = append(m.Steps, ans(e))
+		}
+		m.Steps = append(m.Steps, c12Step{Kind: 'x'})
+		txt := strings.Join(elems[:3], "")
+		if slot == 0 {
+			return fmt.Sprintf("sub_atom(%s, _, 1, _, X), put_char(user_output, X).", txt), m
+		}
+		return fmt.Sprintf("sub_atom('%s', _, 1, _, Y), atom_codes(Y, [C]), X is C - 48, put_char(user_output, Y).", txt), m
 	case kind == "cut1" || kind == "cutalt":
 		// queries made of cuts only: their single answer carries the EMPTY environment (a nil *engine.Env), which
 		// must still count as an answer; there is no variable X, so Scan reports it as absent
